@@ -31,7 +31,34 @@ Clauses (violation ids)
   grid.save-roundtrip.<class>  GridBlueprint(lattice map) -> construct -> saveToStream(tryMap) -> load -> construct gives
                            different grid contents (the user-facing form of the same clause)
 
-The oracle is a round trip / a count; nothing about the text layout is re-implemented here.  The cell domains
+and of the first sentence of C18 as far as it concerns the maps alone ("... places, at every location named in the
+core and pin lattice maps (text maps and explicit lists alike) ..."): which (i,j) a GridBlueprint gives to every token
+of a ``lattice map`` text.  <geom> = cartesian-full | cartesian-quarter | hex-third-flats | hex-full-tips |
+hex-full-flats; <shape> = the family of the layout (Cartesian: rect, diamond, round, step-narrow-top,
+step-narrow-bottom, step-left, wide-row-top / -middle / -bottom, random-holes; hex: full, holes; shipped) - maps whose
+ROWS HAVE UNEQUAL LENGTH, written with the trailing placeholders left off (the form armi's own writer produces), with
+them written out, and with every row filled to the window; odd and even widths and heights.
+  grid.lattice-index.<geom>.<shape>    GridBlueprint(lattice map).construct(): the grid contents are not the (i,j) that
+                           the text itself gives to its tokens.  Oracle from the text alone: Cartesian = (column, row from
+                           the bottom) [asciimaps: "i and j are equal to column, row"]; full core: minus (nx // 2, ny // 2)
+                           with nx = the widest row, ny = the number of rows, placeholders counted [gridBlueprint: "offset
+                           appropriately to get (0,0) in the middle", int(-n/2) "for even and odd cases"]: odd n - the token in
+                           the middle of the widest row / the middle row is (0,0); even n - the axes lie between the two middle
+                           columns / rows and (0,0) is the cell right of / above them [grids.CartesianGrid: "even-by-even ...
+                           the (0,0) location is offset from the origin", origin at its bottom-left corner].  Hex third /
+                           corners-up: documented tables as in map.anchor.  Flats-up full core: the map class's own reader
+                           (the blueprint must add no shift of its own).
+  grid.lattice-padding.<geom>.<shape>  the same map with the trailing placeholders of its rows written out (rows filled to
+                           the widest row; flats-up full core: all rows but the bottom one, whose length defines the cut
+                           corners) gives different grid contents.  Needs no index convention at all.
+  grid.map-vs-contents.<geom>.<shape>  the layout given as ``lattice map`` and the same layout given as explicit ``grid
+                           contents`` give different grid contents, or the constructed spatial grids put a cell at
+                           different x,y (through-centre / offset inferred differently)
+  grid.lattice-centre.cartesian-full.<shape>  square full-core maps whose labels reach all four sides (the two cases drawn in
+                           the CartesianGrid documentation): in the constructed grid the label of text column c, text row r
+                           does not sit at ((c - (n-1)/2), (r - (n-1)/2)) pitches from the origin - the map is not centred
+
+The oracle is a round trip / a count / the documented position of a token; nothing of armi's text handling is re-implemented here.  The cell domains
 (rings of a hexagon, the 120-degree sector of a third core, an nx x ny rectangle) are defined below by plain
 inequalities on (i,j), independent of asciimaps.
 """
@@ -61,10 +88,16 @@ PH = "-"
 B = Bounded(
     rule="per AsciiMap class: (i) shipped lattice-map texts and relabelled/hole-punched/re-spaced variants of them, "
     "(ii) contents = all in-domain cells within R rings (hex) / nx x ny (Cartesian) minus every hole pattern of <= N cells, "
-    "plus seeded random hole patterns of any size; non-trivial = distinct (class, contents/text)",
+    "plus seeded random hole patterns of any size; (iii) GridBlueprint level: lattice-map texts with rows of unequal length (Cartesian full + quarter core: "
+    "rectangle / diamond / round / steps narrowing to the top, the bottom, from the left / one wide row at the top, middle, bottom with the others k columns wide / "
+    "random holes, each written with trailing placeholders left off, written out, and filled to the window; hex third and corners-up: own drawings of 1-4 rings with "
+    "random holes; shipped texts of every class) -> grid contents vs the text's own token positions, vs the padded text, vs explicit grid contents; "
+    "non-trivial = distinct (class, contents/text)",
     bound="hex R<=4 rings (37 cells full, 13 third), Cartesian <=6x6; holes: every pattern when the map has <=10 (quick) / <=13 (thorough) "
     "cells, else every pattern of <=3 (quick) / <=4 (thorough; <=5 when <=19 cells) removed cells; random larger patterns: 300 (quick) / "
-    "2000 (thorough) per map; text variants: 20 (quick) / 150 (thorough) per shipped text; centred (negative-index) Cartesian: <=1 / <=2 holes",
+    "2000 (thorough) per map; text variants: 20 (quick) / 150 (thorough) per shipped text; centred (negative-index) Cartesian: <=1 / <=2 holes; "
+    "lattice-map indexing: every Cartesian window 1x1..6x6 (quick) / ..9x9 (thorough) x 9 shape families (every k for the wide-row ones) + 6 / 40 random hole patterns per "
+    "window, x 3 text forms x full / quarter core; hex 1-4 rings, full + 6 / 40 random hole patterns per ring count and class",
 )
 THOROUGH = B.thorough()
 rng = B.rng
@@ -419,11 +452,283 @@ def dedent(text):
     return "\n".join(ln[ind:] for ln in lines)
 
 
+# ------------------------------------------------------------------------------------------------ lattice map text -> grid contents
+# "places, at every location named in the core and pin lattice maps (text maps and explicit lists alike) ...": the
+# (i,j) a GridBlueprint gives to every token of a ``lattice map`` text, for maps whose rows have UNEQUAL length (round /
+# diamond / stepped layouts, trailing placeholders left off - the form armi's own writer produces).
+SHAPES_RUN = {}
+
+
+def shapeMask(shape, nx, ny, k=0):
+    """Occupied cells {(c, r)} (text column from the left, row from the BOTTOM) of an nx x ny window; plain inequalities."""
+    cells = [(c, r) for c in range(nx) for r in range(ny)]
+    if shape == "rect":
+        return set(cells)
+    if shape == "diamond":  # scaled Manhattan distance from the middle of the window
+        return {(c, r) for c, r in cells if abs(2 * c + 1 - nx) * ny + abs(2 * r + 1 - ny) * nx <= nx * ny}
+    if shape == "round":
+        return {(c, r) for c, r in cells if ((2 * c + 1 - nx) * ny) ** 2 + ((2 * r + 1 - ny) * nx) ** 2 <= (nx * ny) ** 2}
+    if shape == "step-narrow-top":  # rows get shorter towards the top
+        return {(c, r) for c, r in cells if c * ny < (ny - r) * nx}
+    if shape == "step-narrow-bottom":  # rows get shorter towards the bottom
+        return {(c, r) for c, r in cells if c * ny < (r + 1) * nx}
+    if shape == "step-left":  # holes on the LEFT (leading placeholders are written), wider towards the top
+        return {(c, r) for c, r in cells if (nx - 1 - c) * ny < (r + 1) * nx}
+    if shape in ("wide-row-top", "wide-row-middle", "wide-row-bottom"):  # one full row, the others only k columns wide
+        wide = {"wide-row-top": ny - 1, "wide-row-middle": ny // 2, "wide-row-bottom": 0}[shape]
+        return {(c, r) for c, r in cells if r == wide or c < k}
+    raise ValueError(shape)
+
+
+def maskText(mask, nx, ny, form, width=1):
+    """Own drawing of a Cartesian layout: one text row per r (top row first), one token per column, '-' = hole.
+
+    form 'trimmed': placeholders after the last label of a row are left off (a row of holes only is one '-');
+    form 'padded': every row of the trimmed text is filled with placeholders to the widest row; form 'window': every
+    row has all nx columns."""
+    labels = {cr: labelFor(n, width) for n, cr in enumerate(sorted(mask))}
+    rows = []
+    for r in reversed(range(ny)):
+        toks = [labels.get((c, r), PH) for c in range(nx)]
+        if form != "window":
+            while len(toks) > 1 and toks[-1] == PH:
+                toks.pop()
+        rows.append(toks)
+    if form == "padded":
+        w = max(len(t) for t in rows)
+        rows = [t + [PH] * (w - len(t)) for t in rows]
+    return "\n".join(" ".join(t) for t in rows)
+
+
+def padRows(text, exceptLast=False):
+    toks = tokensOf(text)
+    w = max(len(t) for t in toks)
+    lines = text.strip("\n").splitlines()
+    out = []
+    for n, (ln, t) in enumerate(zip(lines, toks)):
+        if exceptLast and n == len(toks) - 1:
+            out.append(ln)
+        else:
+            out.append(ln.rstrip() + (" " + PH) * (w - len(t)))
+    return "\n".join(out)
+
+
+def textIndexOracle(geom, symmetry, text):
+    """{(i,j): label} that the documentation gives to the tokens of a lattice-map text (placeholders dropped).
+
+    Cartesian: asciimaps 'i and j are equal to column, row' (rows from the bottom); for a full core GridBlueprint
+    shifts all of them 'to get (0,0) in the middle', by int(-n/2) of the map's extent in text slots (widest row,
+    number of rows) 'for even and odd cases': odd n -> the middle column/row is 0; even n -> the axes lie between the
+    two middle columns/rows and (0,0) is the cell right of / above them (grids.CartesianGrid: 'even-by-even ... the
+    (0,0) location is offset from the origin', origin at its bottom-left corner).  Hex third / corners-up: the
+    documented tables (documentedIndex).  Flats-up full core has no documented closed form: the map class's own
+    reader (whose anchors are the subject of map.anchor) - the blueprint must add no shift of its own."""
+    toks = tokensOf(text)
+    clsName = classForGeom(geom, symmetry)
+    nx, ny = max(len(t) for t in toks), len(toks)
+    if clsName == "AsciiMapHexFullFlatsUp":
+        return nonPlaceholder(readText(MAP_CLASSES[clsName], text).asciiLabelByIndices), "map class reader"
+    out = {}
+    for a, ln in enumerate(toks):
+        for b, t in enumerate(ln):
+            if clsName == "AsciiMapCartesian":
+                ij = (b, ny - 1 - a)
+                if "full" in symmetry:
+                    ij = (ij[0] - nx // 2, ij[1] - ny // 2)
+            else:
+                ij = documentedIndex(clsName, toks, a, b)
+            if ij is None:
+                return None, None
+            if t != PH:
+                if ij in out:
+                    return None, None
+                out[ij] = t
+    return out, "documentation"
+
+
+def gridDoc(geom, symmetry, text=None, contents=None):
+    doc = "g:\n  geom: %s\n  symmetry: %s\n" % (geom, symmetry)
+    if text is not None:
+        return doc + "  lattice map: |\n" + "".join("    " + ln + "\n" for ln in text.strip("\n").splitlines())
+    return doc + "  grid contents:\n" + "".join("    [%d, %d]: '%s'\n" % (i, j, v) for (i, j), v in sorted(contents.items()))
+
+
+def builtGrid(doc):
+    """-> (grid contents, symmetry string after construction, {(i,j): xy of the cell centre in units of the pitch})"""
+    g = Grids.load(doc, Loader=CLoader)["g"]
+    grid = g.construct()
+    c = {tuple(k): v for k, v in g.gridContents.items()}
+    xy = {k: tuple(round(float(x), 9) for x in grid.getCoordinates((k[0], k[1], 0))[:2]) for k in c}
+    return c, str(g.symmetry), xy
+
+
+def geomTag(geom, symmetry):
+    return SHORT.get(classForGeom(geom, symmetry), "other") + ("-full" if geom == "cartesian" and "full" in symmetry else "-quarter" if geom == "cartesian" else "")
+
+
+def diffOf(want, got):
+    return sorted([list(k), want.get(k), got.get(k)] for k in set(want) | set(got) if want.get(k) != got.get(k))[:6]
+
+
+def checkLatticeIndex(geom, symmetry, text, shape, origin, padExceptLast=False):
+    """The clauses grid.lattice-index / grid.lattice-padding / grid.map-vs-contents / grid.lattice-centre for one text."""
+    tag = "%s.%s" % (geomTag(geom, symmetry), shape)
+    inp = {"check": "lattice-index", "geom": geom, "symmetry": symmetry, "shape": shape, "origin": origin, "lattice map": text}
+    B.case(("lattice-index", geom, symmetry, text), dict(inp) if SHAPES_RUN.get(tag, 0) == 0 and len(B.samples) < 5 else None)
+    SHAPES_RUN[tag] = SHAPES_RUN.get(tag, 0) + 1
+    want, source = textIndexOracle(geom, symmetry, text)
+    if want is None:
+        B.extra["lattice_index_no_oracle"] = B.extra.get("lattice_index_no_oracle", 0) + 1
+        return
+    try:
+        got, symT, xyT = builtGrid(gridDoc(geom, symmetry, text=text))
+    except Exception as e:
+        violation("grid.lattice-index." + tag, "a well-formed lattice map was not read by the grid blueprint: %r" % e, inp, len(text))
+        return
+    check(
+        got == want,
+        "grid.lattice-index." + tag,
+        "grid contents read from the lattice map are not the (i,j) the %s gives to the tokens (index, expected, found)" % source,
+        dict(inp, differ=diffOf(want, got), centre_expected=want.get((0, 0)), centre_found=got.get((0, 0))),
+        len(text),
+    )
+    # the same layout with the trailing placeholders written out
+    padded = padRows(text, exceptLast=padExceptLast)
+    if padded.split() != text.split():
+        try:
+            gotP = builtGrid(gridDoc(geom, symmetry, text=padded))[0]
+        except Exception as e:
+            gotP = {"unreadable": repr(e)}
+        check(
+            gotP == got,
+            "grid.lattice-padding." + tag,
+            "the same map with the trailing placeholders of its rows written out / left off gives different grid contents",
+            dict(inp, padded=padded, differ=diffOf(gotP, got)),
+            len(text),
+        )
+    # the same layout as an explicit list
+    if want:
+        try:
+            gotC, symC, xyC = builtGrid(gridDoc(geom, symmetry, contents=want))
+        except Exception as e:
+            gotC, symC, xyC = {"unloadable": repr(e)}, None, None
+        check(
+            gotC == got and xyC == xyT,
+            "grid.map-vs-contents." + tag,
+            "lattice map and explicit `grid contents` of the same layout give different grid contents / cell positions",
+            dict(inp, contents=jsonContents(want), differ=diffOf(gotC, got), symmetry_built=[symT, symC], positions=[[list(k), xyT.get(k), (xyC or {}).get(k)] for k in sorted(xyT) if (xyC or {}).get(k) != xyT.get(k)][:4]),
+            len(text),
+        )
+    # full-core Cartesian, square maps whose labels reach all four sides (the two cases the CartesianGrid documentation
+    # draws): the window of text slots is centred on the origin
+    if geom == "cartesian" and "full" in symmetry and got:
+        toks = tokensOf(text)
+        nx, ny = max(len(t) for t in toks), len(toks)
+        ext = [max(k[d] for k in got) - min(k[d] for k in got) + 1 for d in (0, 1)]
+        if nx == ny and ext == [nx, ny]:
+            bad = []
+            labelAt = {xyT[k]: v for k, v in got.items()}
+            for a, ln in enumerate(toks):
+                for b, t in enumerate(ln):
+                    xyWant = (round(b - (nx - 1) / 2.0, 9), round((ny - 1 - a) - (ny - 1) / 2.0, 9))
+                    if labelAt.get(xyWant, PH) != t:
+                        bad.append([t, list(xyWant), labelAt.get(xyWant)])
+            check(not bad, "grid.lattice-centre." + tag, "square full-core map: a label is not at its text position measured from the middle of the map (label, its xy / pitch, label found there)", dict(inp, bad=bad[:4]), len(text))
+        else:
+            B.extra["lattice_centre_skipped_not_square"] = B.extra.get("lattice_centre_skipped_not_square", 0) + 1
+
+
+CART_SHAPES = ["rect", "diamond", "round", "step-narrow-top", "step-narrow-bottom", "step-left", "wide-row-top", "wide-row-middle", "wide-row-bottom"]
+
+
+def runLatticeIndex():
+    NMAX = 9 if THOROUGH else 6
+    NRND = 40 if THOROUGH else 6
+    seen = set()
+
+    def cart(mask, nx, ny, shape):
+        if not mask:
+            return
+        for form in ("trimmed", "padded", "window"):
+            text = maskText(mask, nx, ny, form, width=1 + (nx + ny) % 3)
+            for sym in ("full", "quarter reflective"):
+                if (sym, text) not in seen:
+                    seen.add((sym, text))
+                    checkLatticeIndex("cartesian", sym, text, shape, "generated %dx%d %s %s" % (nx, ny, shape, form))
+
+    for nx in range(1, NMAX + 1):
+        for ny in range(1, NMAX + 1):
+            for shape in CART_SHAPES:
+                for k in range(1, nx) if shape.startswith("wide-row") else (0,):
+                    cart(shapeMask(shape, nx, ny, k), nx, ny, shape)
+            cells = [(c, r) for c in range(nx) for r in range(ny)]
+            for _ in range(NRND if nx * ny > 2 else 0):
+                p = rng.choice([0.4, 0.6, 0.8])
+                cart({cr for cr in cells if rng.random() < p}, nx, ny, "random-holes")
+    # hex: own drawings of the documented layouts (third core: base table; corners up: affine), every ring count, holes
+    for R in (1, 2, 3, 4):
+        for nHoles in [0] + [rng.randint(1, max(1, len(thirdHexCells(R)) // 2)) for _ in range(NRND if R > 1 else 0)]:
+            cells = sorted(thirdHexCells(R))
+            keep = set(cells) - set(rng.sample(cells, nHoles))
+            if keep:
+                checkLatticeIndex("hex", "third periodic", thirdMapText(labelled(keep, 1 + R % 3)), "holes" if nHoles else "full", "generated third core %d rings" % R)
+        for nHoles in [0] + [rng.randint(1, max(1, len(fullHexCells(R)) // 2)) for _ in range(NRND if R > 1 else 0)]:
+            cells = sorted(fullHexCells(R))
+            keep = set(cells) - set(rng.sample(cells, nHoles))
+            if keep:
+                checkLatticeIndex("hex_corners_up", "full", tipsMapText(labelled(keep, 1 + R % 3), R), "holes" if nHoles else "full", "generated corners-up %d rings" % R)
+    # shipped texts of every class (flats-up full core: the only source of layouts that does not use armi's writer)
+    for clsName, origin, text in shipped:
+        if origin.startswith("synthetic"):
+            continue
+        for geom, sym in (("cartesian", "full"), ("cartesian", "quarter reflective"), ("hex", "third periodic"), ("hex_corners_up", "full"), ("hex", "full")):
+            if classForGeom(geom, sym) == clsName:
+                checkLatticeIndex(geom, sym, dedent(text), "shipped", origin, padExceptLast=clsName == "AsciiMapHexFullFlatsUp")
+    B.extra["lattice_index_cases_by_shape"] = dict(sorted(SHAPES_RUN.items()))
+
+
+def thirdMapText(cells):
+    """Own drawing of a flats-up third-core layout from the documented base table: line r (from the bottom) starts at
+    THIRD_BASES_DOC[r], each column adds (+2,-1); placeholders after the last label of a line are left off."""
+    pos = {}
+    for (i, j), spec in cells.items():
+        for r, (bi, bj) in enumerate(THIRD_BASES_DOC):
+            if (i - bi) % 2 == 0 and (i - bi) // 2 >= 0 and bj - (i - bi) // 2 == j:
+                pos[(r, (i - bi) // 2)] = spec
+                break
+        else:
+            raise ValueError("cell %s not in the documented table" % ((i, j),))
+    lines = []
+    for r in range(max(r for r, _ in pos) + 1):
+        n = max([c for (rr, c) in pos if rr == r], default=-1) + 1
+        lines.append(" ".join(pos.get((r, c), PH) for c in range(n)) or PH)
+    return "\n".join(reversed(lines))
+
+
+def tipsMapText(cells, R):
+    """Own drawing of a corners-up full hexagon of R rings: 2R-1 lines, line a (from the top) column c is
+    (c-(R-1), 2(R-1)-a-c); placeholders after the last label are left off except on the (widest) middle line."""
+    lines = []
+    for a in range(2 * R - 1):
+        toks = []
+        for c in range(2 * R - 1):
+            ij = (c - (R - 1), 2 * (R - 1) - a - c)
+            toks.append(cells.get(ij, PH) if hexRing(*ij) < R else PH)
+        while a != R - 1 and len(toks) > 1 and toks[-1] == PH:
+            toks.pop()
+        lines.append(" " * a + " ".join(toks))
+    return "\n".join(lines)
+
+
+
 # ------------------------------------------------------------------------------------------------ replay
 if B.replay is not None:
     r = B.replay
     if "contents" in r:
         res = checkContents(r["cls"], {(a, b): v for a, b, v in r["contents"]}, "cartesian-negative" if r["cls"] == "AsciiMapCartesian" and any(a < 0 or b < 0 for a, b, _v in r["contents"]) else "")
+    elif r.get("check") == "lattice-index":
+        checkLatticeIndex(r["geom"], r["symmetry"], r["lattice map"], r.get("shape", "replay"), r.get("origin", "replay"), padExceptLast=classForGeom(r["geom"], r["symmetry"]) == "AsciiMapHexFullFlatsUp")
+        res = "lattice map indexed"
     elif "lattice map" in r:
         checkGridSave(r["geom"], r["symmetry"], r["lattice map"], r.get("origin", "replay"))
         res = "grid saved"
@@ -617,6 +922,17 @@ for clsName, origin, text in shipped:
         }[clsName]
         checkGridSave(geomSym[0], geomSym[1], dedent(text), origin)
 
+
+runLatticeIndex()
+
+# observed, not judged here (reported to the maintainers of the framework): specifiers that YAML reads as numbers.  A
+# lattice map always yields strings; an explicit list keeps the int, and getLocators(grid, [1]) then finds nothing.
+try:
+    _gc, _s, _xy = builtGrid("g:\n  geom: cartesian\n  symmetry: quarter reflective\n  grid contents:\n    [0, 0]: 1\n    [1, 0]: 2\n")
+    _gm = builtGrid(gridDoc("cartesian", "quarter reflective", text="1 2"))[0]
+    B.extra["observed_numeric_specifiers"] = {"lattice map '1 2'": jsonContents(_gm), "grid contents [0,0]: 1, [1,0]: 2": jsonContents(_gc), "same": _gc == _gm}
+except Exception as e:  # noqa: BLE001
+    B.extra["observed_numeric_specifiers"] = repr(e)
 B.extra["refused_by_class"] = refused
 B.extra["drawn_by_class"] = drawn
 flushViolations()
